@@ -45,6 +45,7 @@ def run(ctx):
     P.mark_collateral(ctx, [TABLE], explained)
     base_broken = [a for a in rep["aborted"] if a["class"] == "Metric"]
     P.mark_collateral(ctx, [BASE], bool(base_broken))
+    P.base_report(ctx, rep, "reset_clones_defaults", "reset", "$f", "reset", [BASE])
     P.dynamic_validation(ctx, "effects:dyn " + ("load_state_dict(state_dict()) into fresh == original" if MODE == "load" else "reset() == fresh")
                          + " (attributes + continuations, all classes)",
                          lambda n, c: D.probe_registry(n, c, MODE), flagged, "tie:dyn-registry")
